@@ -225,6 +225,9 @@ Record outs := mkO {
   o_N : expr; o_sigma_i : expr; o_bre : expr; o_bim : expr; o_ss : expr; o_lam : expr
 }.
 
+(* the seven returned numbers, in the order of the result tuple *)
+Definition outs_list (o : outs) : list expr := [o_re o; o_im o; o_inc o; o_coh o; o_abs o; o_ixs o; o_pen o].
+
 (* numpy.maximum(x, 0.) *)
 Definition maximum0 (x : expr) : expr := EDiv (EAdd x (EAbs x)) (ez 2).
 
